@@ -833,7 +833,7 @@ func vSapiGenerate(t *testing.T, h *vSapi, r *vrand, nseq, nops int) {
 					dupBurst--
 				case dupBurst > 0:
 					dupBurst = 0
-				case room > 2 && r.chance(20):
+				case room > 2 && r.chance(40):
 					dupBurst = 2 + r.n(3)
 					gaps = fmt.Sprintf("2-%d", 2+r.n(room-1))
 					l.stat("sa.sack.dupburst")
@@ -903,9 +903,16 @@ func vSapiGenerate(t *testing.T, h *vSapi, r *vrand, nseq, nops int) {
 				}
 			default: // read side
 				sid := 1 + r.n(ns)
+				if r.chance(70) { // prefer a stream that has something to read
+					for k := 1; k <= ns; k++ {
+						if h.streams[uint16(k)].reassemblyQueue.isReadable() {
+							sid = k
+						}
+					}
+				}
 				snd := rs[sid]
 				switch y := r.n(12); {
-				case y < 5: // the peer sends a message / the network delivers a fragment (any order)
+				case y < 6: // the peer sends a message / the network delivers a fragment (any order)
 					if len(rq) < 6 || r.chance(30) {
 						snd.nextTSN = rtsn
 						m := snd.newMsg(r.pick(1, 2, 5, 40, 200, 3000), r.chance(30), r.u32())
